@@ -86,6 +86,23 @@ pub fn run(seed: u64, n: usize) -> Vec<Value> {
                 ev.push(decode_event("valid", &lock, s, idx));
                 l2 = (Scalar::from_bytes(&l2).unwrap() + Scalar::one()).to_bytes();
                 ev.push(decode_event("lock altered", &l2, s, idx));
+                // the lock altered so that a LOSSY comparison (word-wise XOR fold, sum of words, first bytes only) could
+                // miss it: the same mask XORed into two 64-bit words, two words exchanged, only the last byte changed
+                {
+                    let words = |b: &[u8; 32]| -> [u64; 4] { let mut w = [0u64; 4]; for i in 0..4 { let mut a = [0u8; 8]; a.copy_from_slice(&b[8 * i..8 * i + 8]); w[i] = u64::from_le_bytes(a); } w };
+                    let unwords = |w: &[u64; 4]| -> [u8; 32] { let mut b = [0u8; 32]; for i in 0..4 { b[8 * i..8 * i + 8].copy_from_slice(&w[i].to_le_bytes()); } b };
+                    let w0 = words(&lock);
+                    for (a, b2) in [(0usize, 1usize), (1, 2), (0, 2)] {
+                        let mut w = w0; w[a] ^= 0x5a5a_0000_1234_5678; w[b2] ^= 0x5a5a_0000_1234_5678;
+                        ev.push(decode_event("lock altered: one mask XORed into two words", &unwords(&w), s, idx));
+                        let mut w = w0; w.swap(a, b2);
+                        if w != w0 { ev.push(decode_event("lock altered: two words exchanged", &unwords(&w), s, idx)); }
+                    }
+                    let mut l3 = lock; l3[0] ^= 1;
+                    ev.push(decode_event("lock altered: lowest bit", &l3, s, idx));
+                    let mut l4 = lock; l4[30] ^= 0x10;
+                    ev.push(decode_event("lock altered: a high byte", &l4, s, idx));
+                }
                 ev.push(decode_event("secret altered", &lock, &(s + Scalar::one()), idx));
                 ev.push(decode_event("index altered", &lock, s, idx.wrapping_add(1)));
                 if idx > 0 {
